@@ -124,7 +124,15 @@ func (cfg *Config) applyDenylist() {
 }
 
 func (cfg *Config) applyOverrides() error {
-	for name, value := range cfg.overrides {
+	// Apply overrides in sorted name order so that the outcome does not depend
+	// on map iteration order (e.g. overriding both "m" and "m.x").
+	names := make([]string, 0, len(cfg.overrides))
+	for name := range cfg.overrides {
+		names = append(names, name)
+	}
+	sort.Strings(names)
+	for _, name := range names {
+		value := cfg.overrides[name]
 		parts := strings.Split(name, ".")
 		if len(parts) == 1 {
 			cfg.globals[name] = value
